@@ -1,8 +1,11 @@
 /-
   C14 — tie to the source (T), part 3: the constants of src/helper/crypt.rs read from the CURRENT source on every run
-  are the ones the hand model uses (`Umya/Model/Crypt.lean`).  Constants only.
+  are the ones the hand model uses (`Umya/Model/Crypt.lean`), and the functions `convert_password_to_key`, `create_iv`,
+  `crypt_package` (encrypt direction) and `encrypt_parts`, compiled from the CURRENT source on every run
+  (`Umya/Model/Gen/Fns.lean`), are the hand model's for all arguments.
 -/
 import Umya.Lemmas.FnsGenCrypt
+import Umya.Lemmas.FnsGenCryptPkg
 namespace Umya.Thm.C14
 open Umya.Crypt Umya.Crypto Umya.Gen
 
@@ -39,5 +42,86 @@ theorem C14_constants_match_source :
 
 /-- the hypothesis of the last clause is satisfiable -/
 example : litOf crypt_encrypt_literals_ints "encrypt_parts.key_spin_count" = some 100000 := by decide
+
+/-- **Tie to the source (T), `hash`.**  `hash(algorithm, buffers)` as compiled from the source (the `match` on the algorithm name,
+    `Sha512::new()`, one `update` with `buffer_concat(buffers)`, `finalize().to_vec()`; the hasher state is the bytes fed so far, `update`
+    appends, `finalize` is `P.sha512`) is SHA-512 of the concatenation for the names `"SHA512"` / `"SHA-512"` and `Err` for any other —
+    `hashOf P`, which the theorems below are stated with. -/
+theorem C14_hash_matches_source (P : Prims) (alg : List Char) (bufs : List Bytes) :
+    crypt_hash P.sha512 [] shaUpd alg bufs = if algOk alg then some (P.sha512 bufs.flatten) else none :=
+  gen_hash P alg bufs
+
+/-- **Tie to the source (T), the key derivation.**  `convert_password_to_key(password, algorithm, salt, spin_count, key_bits, block_key)`
+    as compiled from the source, calling the compiled `hash` (UTF-16LE of the password; `H(salt ‖ pw)`; `spin_count` rounds `H(LE32 i ‖ h)` with `i as u32`;
+    `H(h ‖ block_key)`; then `match len.cmp(key_bits / 8)`: shorter = copied over a buffer of 0x36, longer = cut, equal = as is)
+    equals the model's `convertPasswordToKey` for ALL arguments; an algorithm name `hash` does not accept is a panic. -/
+theorem C14_kdf_matches_source (P : Prims) (pw alg : List Char) (salt : Bytes) (spin keyBits : Nat) (blockKey : Bytes) :
+    crypt_convert_password_to_key P.sha512 [] shaUpd pw alg salt spin keyBits blockKey =
+      if algOk alg then some (convertPasswordToKey P pw salt spin keyBits blockKey) else none :=
+  gen_convert_password_to_key P pw alg salt spin keyBits blockKey
+
+/-- **Tie to the source (T), the IV.**  `create_iv(algorithm, salt, block_size, block_key)` as compiled from the source equals the
+    model's `createIv` for ALL arguments (all block sizes: padded with 0x36, cut, or unchanged). -/
+theorem C14_iv_matches_source (P : Prims) (alg : List Char) (salt : Bytes) (blockSize : Nat) (blockKey : Bytes) :
+    crypt_create_iv P.sha512 [] shaUpd alg salt blockSize blockKey =
+      if algOk alg then some (createIv P salt blockSize blockKey) else none :=
+  gen_create_iv P alg salt blockSize blockKey
+
+/-- both branches of the algorithm test occur -/
+example : algOk sha512Name ∧ ¬ algOk aes := by decide
+
+/-- **Tie to the source (T), the package.**  `crypt_package(&true, cipher, chaining, algorithm, &16, salt, key, input)` as compiled from
+    the source — the `while` loop over 4096-byte chunks (run on fuel `input.len() + 1`, which the loop lemma `whileM_chunks` shows to
+    suffice), zero padding to 16, IV = `create_iv(.., LE32 (i as u32))`, `crypt(..)` per chunk with its `unwrap`, the 8-byte prefix
+    `LE32 (len as u32) ‖ 0 0 0 0` — equals the model's `cryptPackage` for ALL salts, keys and inputs (`none` = panic on both sides:
+    key not 32 bytes).  `crypt` is the extern `cryptOf P` = the model's `Crypt.crypt`. -/
+theorem C14_package_matches_source (P : Prims) (cipher chain alg : List Char) (salt key input : Bytes) (h : algOk alg) :
+    crypt_crypt_package (cryptOf P) P.sha512 [] shaUpd true cipher chain alg 16 salt key input = cryptPackage P salt key input :=
+  gen_crypt_package P cipher chain alg salt key input h
+
+/-- the hypothesis is satisfiable by the name `encrypt_parts` passes -/
+example : algOk sha512Name := by decide
+
+/-- **Tie to the source (T), `build_encryption_info`.**  As compiled from the source — the XML declaration, the start tags `encryption`,
+    `keyData`, `dataIntegrity`, `keyEncryptors`, `keyEncryptor`, `p:encryptedKey` with their attribute ↔ value tables (which of the twenty
+    arguments goes to which attribute, as `len().to_string()`, `to_string()`, base64 or itself; the namespace constants of
+    `helper/const_str.rs`), the end tags, the prefix `ENCRYPTION_INFO_PREFIX` — it is the model's `buildEncryptionInfo` of the descriptor
+    record `infoOf` fills from the arguments, for ALL arguments.  The quick-xml writer is the text written so far; `write_start_tag` /
+    `write_end_tag` / `write_new_line` of `writer/driver.rs` are the model's `startTag` / `endTag` / CR LF (attribute escaping is the
+    identity on the values that occur: an assumption of the model, exercised by the correspondence check). -/
+theorem C14_info_matches_source (P : Prims) (packageSalt : Bytes) (packageBlockSize packageKeyBits packageHashSize : Nat)
+    (packageCipher packageChaining packageHash : List Char) (encHmacKey encHmacValue : Bytes) (spin : Nat) (keySalt : Bytes)
+    (keyBlockSize keyKeyBits keyHashSize : Nat) (keyCipher keyChaining keyHash : List Char)
+    (encVerifierInput encVerifierValue encKeyValue : Bytes) :
+    crypt_build_encryption_info (List Char) P.b64 xmlBytes xmlDecl xmlEndTag [] xmlNewLine xmlStartTag
+        packageSalt packageBlockSize packageKeyBits packageHashSize packageCipher packageChaining packageHash encHmacKey encHmacValue
+        spin keySalt keyBlockSize keyKeyBits keyHashSize keyCipher keyChaining keyHash encVerifierInput encVerifierValue encKeyValue =
+      buildEncryptionInfo
+        { keyData := { saltSize := packageSalt.length, blockSize := packageBlockSize, keyBits := packageKeyBits, hashSize := packageHashSize,
+                       cipherAlgorithm := packageCipher, cipherChaining := packageChaining, hashAlgorithm := packageHash,
+                       saltValue := P.b64 packageSalt }
+          encryptedHmacKey := P.b64 encHmacKey
+          encryptedHmacValue := P.b64 encHmacValue
+          spinCount := spin
+          key := { saltSize := keySalt.length, blockSize := keyBlockSize, keyBits := keyKeyBits, hashSize := keyHashSize,
+                   cipherAlgorithm := keyCipher, cipherChaining := keyChaining, hashAlgorithm := keyHash, saltValue := P.b64 keySalt }
+          encryptedVerifierHashInput := P.b64 encVerifierInput
+          encryptedVerifierHashValue := P.b64 encVerifierValue
+          encryptedKeyValue := P.b64 encKeyValue } :=
+  gen_build_encryption_info P packageSalt packageBlockSize packageKeyBits packageHashSize packageCipher packageChaining packageHash
+    encHmacKey encHmacValue spin keySalt keyBlockSize keyKeyBits keyHashSize keyCipher keyChaining keyHash encVerifierInput
+    encVerifierValue encKeyValue
+
+/-- **Tie to the source (T), `encrypt_parts`.**  As compiled from the source — the order of the random draws (`gen_random_32`, three
+    `gen_random_16` = package salt, key salt, verifier input, `gen_random_64`), which key / IV encrypts what, the HMAC over the encrypted
+    package, the three derived keys, the twenty arguments handed to the compiled `build_encryption_info` — it returns the model's
+    `encrypt` (descriptor rendered by `buildEncryptionInfo`, `EncryptedPackage` stream) for ALL packages, passwords and random material.
+    Externs: `crypt` = `cryptOf P` (the model's `crypt`), `hmac` = `hmacOf P`, base64 = `P.b64`, the SHA-512 hasher and the XML writer as in
+    `C14_hash_matches_source` / `C14_info_matches_source`. -/
+theorem C14_encrypt_parts_matches_source (P : Prims) (data : Bytes) (pw : List Char) (ρ : Randoms) :
+    crypt_encrypt_parts (List Char) P.b64 (cryptOf P) (draws16 ρ) (fun _ => ρ.packageKey) (fun _ => ρ.hmacKey) (hmacOf P)
+        P.sha512 [] shaUpd xmlBytes xmlDecl xmlEndTag [] xmlNewLine xmlStartTag data pw =
+      (encrypt P data pw ρ).map (fun r => (buildEncryptionInfo r.1, r.2)) :=
+  gen_encrypt_parts P data pw ρ
 
 end Umya.Thm.C14
